@@ -201,6 +201,11 @@ func readListCmd(dec *imapwire.Decoder) (ref string, patterns []string, options 
 func readListMailbox(dec *imapwire.Decoder) (string, error) {
 	var mailbox string
 	if !dec.String(&mailbox) {
+		if err := dec.Err(); err != nil {
+			// A literal was announced but couldn't be read (e.g. it was
+			// refused): what follows isn't a list-mailbox
+			return "", err
+		}
 		if !dec.Expect(dec.Func(&mailbox, isListChar), "list-char") {
 			return "", dec.Err()
 		}
